@@ -24,6 +24,7 @@ type Oblig struct {
 	Goal   T
 	Trace  []string
 	Path   int
+	Group  string // covers: "exit" = at least one of the group must be reachable
 	// filled by discharge
 	Res SolverResult
 }
@@ -173,7 +174,10 @@ func (u *Unit) lower(s *State, v Value, t types.Type) T {
 		u.decls.Add(name, fmt.Sprintf("(declare-const %s Int)\n(assert (not (= %s 0)))", name, name))
 		return T{name, SInt}
 	case *SliceLit:
-		// materialise the literal as a fresh backing array
+		// materialise the literal as a fresh backing array (once per state)
+		if t, ok := s.litCache[x]; ok {
+			return t
+		}
 		es := u.sortOf(x.lit.etyp)
 		arr := u.newRef(s, "arrlit")
 		hn, hs := elemHeapName(es)
@@ -184,7 +188,12 @@ func (u *Unit) lower(s *State, v Value, t types.Type) T {
 		}
 		u.heapSet(s, hn, Store(h, arr, row))
 		n := IntLit(int64(len(x.lit.elems)))
-		return app(SSlice, "mk_slice", arr, IntLit(0), n, n)
+		res := app(SSlice, "mk_slice", arr, IntLit(0), n, n)
+		if s.litCache == nil {
+			s.litCache = map[*SliceLit]T{}
+		}
+		s.litCache[x] = res
+		return res
 	case nil:
 		return u.zero(t)
 	}
@@ -204,9 +213,12 @@ func (u *Unit) lowerPtr(s *State, p *Ptr) T {
 			return u.promoteCell(s, p.cell)
 		}
 	case pField:
-		// pointer to an embedded struct / field: opaque interior pointer
-		key := "fieldaddr"
-		_ = key
+		if len(p.path) == 0 {
+			if t, ok := u.fieldAddrTerm(p.styp, p.field, p.base); ok {
+				u.eng.iptrs[t.S] = p
+				return t
+			}
+		}
 	}
 	// interior pointer: uninterpreted, injective in (description)
 	name := "iptr!" + smtName(p.String())
@@ -220,10 +232,22 @@ func (u *Unit) lowerPtr(s *State, p *Ptr) T {
 
 // promoteCell moves a local variable to the heap so that its address can be a value.
 func (u *Unit) promoteCell(s *State, c *Cell) T {
-	if c.promoted != nil {
+	if s.promo[c] {
 		return *c.promoted
 	}
-	r := u.newRef(s, "cellref."+c.name)
+	// the reference constant is shared by all paths; the heap cell it names is
+	// created in this state
+	var r T
+	if c.promoted != nil {
+		r = *c.promoted
+		u.allocRef(s, r)
+	} else {
+		r = u.newRef(s, "cellref."+c.name)
+	}
+	if s.promo == nil {
+		s.promo = map[*Cell]bool{}
+	}
+	s.promo[c] = true
 	cur := s.cells[c]
 	if st, ok := c.typ.Underlying().(*types.Struct); ok && !isOpaqueStruct(c.typ) {
 		cv := u.lower(s, cur, c.typ)
@@ -281,7 +305,7 @@ func (u *Unit) loadView(s *State, hv heapView, cells map[*Cell]Value, p *Ptr) Va
 	var root Value
 	switch p.kind {
 	case pCell:
-		if p.cell.promoted != nil {
+		if _, inCells := cells[p.cell]; !inCells && s.promo[p.cell] {
 			return u.loadView(s, hv, cells, u.promotedPtr(p))
 		}
 		v, ok := cells[p.cell]
@@ -322,8 +346,16 @@ func (u *Unit) loadView(s *State, hv heapView, cells map[*Cell]Value, p *Ptr) Va
 			srt := u.sortOf(p.rtyp)
 			root = app(srt, "mk_"+string(srt), args...)
 		} else {
-			hn, hs := derefHeapName(u.sortOf(p.rtyp))
-			root = Select(u.heapGet(hv, hn, hs), p.base)
+			es := u.sortOf(p.rtyp)
+			hn, hs := derefHeapName(es)
+			rt := Select(u.heapGet(hv, hn, hs), p.base)
+			if afs := u.aliasedFields(p.rtyp); len(afs) > 0 && !u.knownPlainRef(s, p.base) {
+				for _, af := range afs {
+					fhn, fhs, _ := u.fieldHeapName(af.styp, af.field)
+					rt = Ite(Eq(ftagOf(p.base), IntLit(int64(af.tag))), Select(u.heapGet(hv, fhn, fhs), u.ownerOf(af, p.base)), rt)
+				}
+			}
+			root = rt
 		}
 	case pGlobal:
 		hn := "G!" + smtName(p.global)
@@ -355,7 +387,7 @@ func (u *Unit) promotedPtr(p *Ptr) *Ptr {
 
 // store writes through a pointer.
 func (u *Unit) store(s *State, p *Ptr, v Value) {
-	if p.kind == pCell && p.cell.promoted != nil {
+	if p.kind == pCell && s.promo[p.cell] {
 		u.store(s, u.promotedPtr(p), v)
 		return
 	}
@@ -408,11 +440,22 @@ func (u *Unit) store(s *State, p *Ptr, v Value) {
 			}
 			return
 		}
-		hn, hs := derefHeapName(u.sortOf(p.rtyp))
+		es := u.sortOf(p.rtyp)
+		hn, hs := derefHeapName(es)
 		h := u.heapGet(s.view(), hn, hs)
 		tv := u.lower(s, v, p.rtyp)
 		s.escape(tv)
 		u.heapSet(s, hn, Store(h, p.base, tv))
+		if afs := u.aliasedFields(p.rtyp); len(afs) > 0 && !u.knownPlainRef(s, p.base) {
+			for _, af := range afs {
+				fhn, fhs, fq := u.fieldHeapName(af.styp, af.field)
+				fh := u.heapGet(s.view(), fhn, fhs)
+				u.heapSet(s, fhn, Ite(Eq(ftagOf(p.base), IntLit(int64(af.tag))), Store(fh, u.ownerOf(af, p.base), tv), fh))
+				if u.eng.spec.guardOf(fq) != "" {
+					u.unsupportedf("store through a pointer that may alias lock-guarded field %s", fq)
+				}
+			}
+		}
 	case pGlobal:
 		hn := "G!" + smtName(p.global)
 		u.heapSet(s, hn, u.lower(s, v, p.rtyp))
@@ -873,7 +916,7 @@ func (u *Unit) execSimple(st *State, in ssa.Instruction) {
 			fr.regs[x] = &Ptr{kind: pField, base: bv, styp: pt, field: x.Field, rtyp: ft, typ: ft}
 		case *Ptr:
 			ft := pt.Underlying().(*types.Struct).Field(x.Field).Type()
-			if bv.kind == pCell && bv.cell.promoted != nil {
+			if bv.kind == pCell && st.promo[bv.cell] {
 				bv = u.promotedPtr(bv)
 			}
 			np := *bv
